@@ -56,6 +56,23 @@ func runC07H2(c *Ctx, ruleB1, ruleH string) {
 			}
 		}
 		br.runB1(ruleB1)
+		// the typed frame parsers (forked from x/net): every index / slice on the frame payload within its length
+		pscope := map[*ssa.Function]bool{}
+		for _, fn := range c.PkgFuncs(h2pkg) {
+			if fn.Parent() != nil {
+				continue
+			}
+			n := fn.Name()
+			if (strings.HasPrefix(n, "parse") && strings.HasSuffix(n, "Frame")) || n == "readByte" || n == "readUint32" {
+				pscope[fn] = true
+				c.FuncsSeen[fn.String()] = true
+			}
+		}
+		if len(pscope) < 8 {
+			c.Unresolved(ruleH, fmt.Sprintf("typed HTTP/2 frame parsers (found %d)", len(pscope)))
+		} else {
+			newBoundsRun(c, pscope).runB1(ruleB1)
+		}
 	}
 	// H2 progress
 	n := 0
